@@ -51,7 +51,7 @@ def cmd_check(pid: str, tier: str, seed: int) -> int:
         if st is not None and os.environ.get("PVS_NO_FOREIGN") != "1":
             from .selftest import run_foreign
 
-            fr = run_foreign(pid, ALL, jobs=int(os.environ.get("PVS_JOBS", "16")))
+            fr = run_foreign(pid, ALL, jobs=int(os.environ.get("PVS_JOBS", "16")), seed=seed)
             st["foreign"] = {k: v for k, v in fr.items() if k != "problems"}
             st["problems"] = list(st.get("problems", [])) + fr.get("problems", [])
     return finish(spec, ctx, tier, seed, t0, error, st)
